@@ -418,10 +418,264 @@ def srv_case(files, qfile, names, rng, max_q):
     return " ".join(items)
 
 
+# ---- annotation blocks (names written in COMMENTS: ---@class / ---@alias / ---@field, type names inside annotation types).
+# The lines of one comment block start in DIFFERENT columns (a `-- note` in column 0 directly followed by indented
+# ---@class / ---@field lines inside a function body, and the reverse; tabs; CJK text before the annotation on the line);
+# typed variables (`---@type Point` + `local p`), members resolved to a ---@field (`p.xpos`).
+ANN_CLASSES = ["Point", "Other", "ns.Vec", "Shape_2", "T1"]
+ANN_ALIASES = ["Mode", "Num", "Handler"]
+ANN_FIELDS = ["xpos", "ypos", "name", "cb", "arr", "w"]
+ANN_PRIMS = ["number", "string", "boolean", "any", "table"]
+ANN_INDENTS = ["", "", "  ", "    ", "\t", "\t\t", " \t", "      "]
+ANN_NOTES = ["scratch types used below", "note", "中文 说明", "漢字 note", "x", "TODO: 说明 types"]
+
+
+class AnnFile:
+    """one Lua file built line by line; records (byte offset, name, kind): kind "id" = Lua identifier occurrence,
+    "ty" = type name inside an annotation"""
+    def __init__(self, rng, defined):
+        self.r = rng
+        self.eol = rng.choice(["\n", "\n", "\r\n", "\r"])
+        self.out, self.pos, self.marks = [], 0, []
+        self.defined = defined              # class / alias names defined somewhere in the workspace
+        self.vars = []                      # (variable, class) typed so far in this file
+        self.nvar = 0
+        self.lua = SrvGen(rng, "ok")
+
+    def emit(self, s):
+        self.out.append(s)
+        self.pos += len(s.encode("utf8"))
+
+    def line(self, parts):
+        """parts: strings or (name, kind) marks"""
+        for p in parts:
+            if isinstance(p, tuple):
+                self.marks.append((self.pos, p[0], p[1]))
+                self.emit(p[0])
+            else:
+                self.emit(p)
+        self.emit(self.eol)
+
+    def tyname(self, allow_undef=False):
+        r = self.r
+        if allow_undef and r.random() < 0.06:
+            return ("Undef%d" % r.randrange(3), "ty")
+        if self.defined and r.random() < 0.7:
+            return (r.choice(self.defined), "ty")
+        return r.choice(ANN_PRIMS)
+
+    def tyexpr(self):
+        r = self.r
+        k = r.random()
+        T = lambda: self.tyname(True)
+        if k < 0.45:
+            return [T()]
+        if k < 0.65:
+            return [T(), r.choice(["|", " | ", "| "]), T()]
+        if k < 0.75:
+            return [T(), "[]"]
+        if k < 0.85:
+            return ["table<string, ", T(), ">"]
+        if k < 0.93:
+            return ["fun(a: ", T(), ", b: ", T(), "): ", T()]
+        return ['"中文"', " | ", T()] if r.random() < 0.5 else ['"a" | "b" | ', T()]
+
+    def indents(self, base, n):
+        """n indentations for the lines of one comment block: aligned, or every line in its own column"""
+        r = self.r
+        if r.random() < 0.35:
+            return [base] * n
+        pool = [base, base, "", "\t", base + "  ", base + "\t", "  ", "    "]
+        return [r.choice(pool) for _ in range(n)]
+
+    def note(self, ind):
+        self.line([ind, self.r.choice(["-- ", "--", "--- ", "--  "]), self.r.choice(ANN_NOTES)])
+
+    def class_block(self, base, name):
+        r = self.r
+        nf = r.choice([0, 1, 2, 3])
+        before, after = r.random() < 0.55, r.random() < 0.15
+        inds = self.indents(base, before + 1 + nf + after)
+        i = 0
+        if before:
+            self.note(inds[i]); i += 1
+        head = [inds[i], r.choice(["---@class ", "---@class ", "---@class  ", "---@class\t"]), name]; i += 1
+        others = [c for c in self.defined if c != name and c in ANN_CLASSES]
+        if others and r.random() < 0.3:
+            head += [r.choice([" : ", ": ", " :"]), (r.choice(others), "ty")]
+        if r.random() < 0.3:
+            head += [" @", r.choice(ANN_NOTES)]
+        self.line(head)
+        fields = r.sample(ANN_FIELDS, nf)
+        for f in fields:
+            ln = [inds[i], "---@field ", r.choice(["", "", "public "]), f, " "] + self.tyexpr(); i += 1
+            if r.random() < 0.3:
+                ln += [" @", r.choice(ANN_NOTES)]
+            self.line(ln)
+        if after:
+            self.note(inds[i])
+        var = name.replace(".", "_")
+        self.line([base, r.choice(["local ", "local ", ""]), (var, "id"), " = {}"])
+        return fields
+
+    def alias_block(self, base, name):
+        r = self.r
+        before = r.random() < 0.5
+        inds = self.indents(base, before + 1)
+        if before:
+            self.note(inds[0])
+        self.line([inds[-1], "---@alias ", name, " "] + self.tyexpr())
+
+    def typed_var(self, base, cls, fields):
+        r = self.r
+        self.nvar += 1
+        v = "%s%d" % (r.choice(["p", "q", "v"]), self.nvar)
+        k = r.random()
+        if k < 0.2:            # tail comment, possibly after CJK text on the line
+            self.line([base, "local ", (v, "id"), " = ", r.choice(['{}', '"中文"', "nil", '"x y"']), r.choice([" ", "  ", "\t"]),
+                       "---@type ", (cls, "ty")])
+        else:
+            before = r.random() < 0.5
+            inds = self.indents(base, before + 1)
+            if before:
+                self.note(inds[0])
+            self.line([inds[-1], r.choice(["---@type ", "---@type ", "---@type  ", "---@type\t"]), (cls, "ty")] +
+                      ([r.choice(["|", " | "]), self.tyname(True)] if r.random() < 0.3 else []))
+            self.line([base, "local ", (v, "id"), " = ", r.choice(["{}", "nil", "make()"])])
+        self.vars.append((v, fields))
+        return v
+
+    def use(self, base):
+        r = self.r
+        if not self.vars:
+            return
+        v, fields = r.choice(self.vars)
+        f = r.choice(fields) if fields and r.random() < 0.85 else r.choice(ANN_FIELDS)
+        k = r.random()
+        if k < 0.4:
+            self.line([base, "print(", (v, "id"), ".", (f, "id"), ", ", (v, "id"), ")"])
+        elif k < 0.7:
+            self.line([base, (v, "id"), ".", (f, "id"), " = 1"])
+        else:
+            self.line([base, "local _ = ", r.choice(['"中文"', "'x'", "{}"]), "; print(", (v, "id"), ".", (f, "id"), ")"])
+
+    def func_block(self, base):
+        r = self.r
+        n = r.choice([1, 2])
+        params = ["a", "b"][:n]
+        lines = [["---@param ", (p, "par"), " ", self.tyname(True)] for p in params] + [["---@return ", self.tyname(True)]]
+        before = r.random() < 0.4
+        inds = self.indents(base, before + len(lines))
+        if before:
+            self.note(inds[0])
+        for ind, ln in zip(inds[before:], lines):
+            self.line([ind] + [x if not (isinstance(x, tuple) and x[1] == "par") else x[0] for x in ln])
+        fn = r.choice(["f", "g", "mk"])
+        self.line([base, r.choice(["local function ", "function "]), (fn, "id"), "("] +
+                  sum([[(p, "id"), ", "] for p in params], [])[:-1] + [") return ", (params[0], "id"), " end"])
+
+    def lua_stat(self, base):
+        toks = [t for t in self.lua.stat() if t != ""]
+        if toks and toks[0] == "return":
+            toks = ["do"] + toks + ["end"]
+        parts = [base]
+        for i, t in enumerate(toks):
+            if i > 0:
+                parts.append(" ")
+            parts.append((t, "id") if NAME_RE.match(t.encode("utf8")) and t not in SRV_KW else t)
+        if self.r.random() < 0.15:
+            parts.append(self.r.choice([" -- c", " -- 中文 note"]))
+        self.line(parts)
+
+    def build(self, defs):
+        """defs: the class / alias names this file defines"""
+        r = self.r
+        if r.random() < 0.1:
+            self.note("")
+            self.line([""])
+        classes = {}
+        depth = 0
+        base = ""
+        todo = list(defs)
+        steps = r.choice([3, 5, 8])
+        while todo or steps > 0:
+            steps -= 1
+            k = r.random()
+            if depth == 0 and k < 0.3:
+                self.line([base, r.choice(["local function make()", "do", "function build()", "if cond then"])])
+                depth, base = 1, r.choice(["  ", "    ", "\t"])
+                continue
+            if depth == 1 and k < 0.2:
+                depth, base = 0, ""
+                self.line(["end"])
+                continue
+            if todo and k < 0.6:
+                nm = todo.pop(0)
+                if nm in ANN_ALIASES:
+                    self.alias_block(base, nm)
+                else:
+                    classes[nm] = self.class_block(base, nm)
+            elif k < 0.75:
+                # mostly a class; sometimes an alias (a variable typed by an alias of table<K, V> / V[]: the members
+                # resolve to the value type written in the alias definition, possibly in another file)
+                known = [c for c in self.defined if c in ANN_CLASSES or r.random() < 0.35]
+                if known:
+                    c = r.choice(known)
+                    self.typed_var(base, c, classes.get(c, []))
+            elif k < 0.85:
+                self.use(base)
+            elif k < 0.92:
+                self.func_block(base)
+            else:
+                self.lua_stat(base)
+        if self.vars:
+            self.use(base)
+        if depth:
+            self.line(["end"])
+        text = "".join(self.out)
+        if r.random() < 0.3:          # no line end after the last line
+            text = text[:len(text) - len(self.eol)]
+        return text, self.marks
+
+
+def ann_case(rng):
+    nfiles = rng.choice([1, 1, 1, 2, 2, 3])
+    names = rng.sample(ANN_CLASSES, rng.choice([1, 2, 3])) + rng.sample(ANN_ALIASES, rng.choice([0, 1, 2]))
+    rng.shuffle(names)
+    owner = [rng.randrange(nfiles) for _ in names]
+    files, marks = [], []
+    for f in range(nfiles):
+        g = AnnFile(rng, names)
+        text, mk = g.build([n for n, o in zip(names, owner) if o == f])
+        files.append(("f%d.lua" % f if f < 2 else "sub/f2.lua", text))
+        marks.append(mk)
+    items = ["F:%s:%s" % (hxs(p), hxs(t)) for p, t in files]
+    items += ["S:open:%d" % i for i in range(len(files))]
+    for f in range(nfiles):
+        text = files[f][1]
+        mk = marks[f]
+        if len(mk) > 24:
+            mk = rng.sample(mk, 24)
+        posn = lsp_positions(text, [o for o, _, _ in mk])
+        for o, nm, kind in sorted(mk):
+            l, c = posn[o]
+            c += rng.choice([0, 0, len(nm) // 2, len(nm) - 1, len(nm)])
+            items.append("S:define:%d:%d:%d" % (f, l, c))
+            if kind == "id" and rng.random() < 0.5:
+                items.append("S:refs:%d:%d:%d" % (f, l, c))
+                items.append("S:rename:%d:%d:%d:%s" % (f, l, c, hxs(rng.choice(["zz", "q_1"]))))
+    items += ["S:docsym:%d" % i for i in range(len(files))]
+    items += ["S:wssym:%s" % hxs(rng.choice(["", "", "P", "o", "ns."])), "S:diags"]
+    return " ".join(items)
+
+
 def gen_ranges(rng, tier):
-    n = {"quick": 260, "thorough": 8000, "search": 200}[tier]
+    n = {"quick": 400, "thorough": 12000, "search": 300}[tier]
     out = []
     for k in range(n):
+        if rng.random() < 0.4:
+            out.append(ann_case(rng))
+            continue
         mode = "ok" if rng.random() < 0.8 else "wild"
         nfiles = rng.choice([1, 1, 1, 2, 3])
         files, allnames = [], []
@@ -516,4 +770,4 @@ def main(tier, seed):
     return r.finish(legs, extra_cov=extra, trusted=vlib.TRUSTED_COMMON + [
         "modelled, tied by correspondence: position bookkeeping of lexer.go (GetNowTokenLoc), LocToRange",
         "independent Python reading of LSP ranges (UTF-16 columns; LF, CRLF, CR) cross-checks Spec/LspRange.v on every case"],
-        assumptions=["leg c04.ranges judges the answers of the real server (definition, references, highlight, rename, documentSymbol, workspace/symbol, diagnostics) with the predicate proved sound by C04_designate_sound; there is no model of the handlers in this property: that every answer passes is established for the generated cases only (the handlers' models belong to C05/C06/C11/C19)"])
+        assumptions=["leg c04.ranges judges the answers of the real server (definition, references, highlight, rename, documentSymbol, workspace/symbol, diagnostics) with the predicates proved sound by C04_designate_sound (identifier tokens) and C04_text_designate_sound (names written in comments: annotation classes / aliases / fields / type names; the text under the range is the name); there is no model of the handlers in this property: that every answer passes is established for the generated cases only (the handlers' models belong to C05/C06/C11/C19)"])
